@@ -228,6 +228,8 @@ prop("C08", [
     # which address the DNS ACL judges: the peer of the datagram / TCP connection (emission-point precondition of the ACL layer)
     dict(engine="verus", unit="dnsreply", fns=["run_udp_reply", "run_tcp_reply", "DnsListenerHandler::recv_in_query", "DnsListenerHandler::build_dns_message"]),
     dict(engine="kani", sets=["config_prefix", "acl_check"]),
+    # the code AROUND the TCP slice (accept, socket reads, tokio::spawn), end to end over loopback
+    dict(engine="sql", module="listener", domain="3 ACL tables x TCP clients connecting from 127.0.0.1/.2/.3 (9 exchanges over real loopback sockets)"),
 ], explanation="require_permission grants <=> the first matching rule exists and grants the permission (Acl::check, check_authenticated via R17d/R17e, require_permission); "
                "entry points: the welcome page, /metrics, the lease listing and the DNS handler chain behind DnsAclHandler are reachable only with the matching permission token (emission-point preconditions), refusal => 403 / RefusedByAcl; "
                "prefix containment against the written-prefix spec, all addresses and prefix lengths (Kani complete)",
